@@ -462,16 +462,18 @@ fn replay_case(w: &Work, set_name: &str, tape: &[u64]) -> Result<(Option<(String
 
 fn main() {
     let args: Vec<String> = std::env::args().collect();
-    if args.get(1).map(String::as_str) == Some("gen") {
-        // sim-det gen <index> <dir>: write the generated file set with this index (same derivation as the workload)
+    if matches!(args.get(1).map(String::as_str), Some("gen" | "gen-net")) {
+        // sim-det gen|gen-net <index> <dir>: write one generated file set (gen-net: NET profile + instance documents)
+        let net = args[1] == "gen-net";
         let g: u64 = args.get(2).and_then(|s| s.parse().ok()).unwrap_or(0);
         let dir = PathBuf::from(args.get(3).cloned().unwrap_or_else(|| ".".into()));
-        let mut ch = Chooser::explore(Rng::derive(simkernel::verif_seed(), "det-gen", g));
-        let (s, meta) = gen_wsdl_set(&mut ch, g);
+        let mut ch = Chooser::explore(Rng::derive(simkernel::verif_seed(), if net { "net-gen" } else { "det-gen" }, g));
+        let (s, meta) = if net { simkernel::gen::gen_wsdl_set_net(&mut ch, g) } else { gen_wsdl_set(&mut ch, g) };
         let _ = std::fs::create_dir_all(&dir);
         for (n, b) in &s.files {
             std::fs::write(dir.join(n), b).unwrap();
         }
+        std::fs::write(dir.join("gen.instances.json"), simkernel::serde_json::to_string_pretty(&meta.instances).unwrap()).unwrap();
         println!("{}", json!({"ops": meta.ops.iter().map(|o| json!({"name": o.name, "header": o.has_header, "parts_attr": o.parts_attr, "parts": o.n_parts})).collect::<Vec<_>>(), "files": meta.n_files, "location": meta.location}));
         return;
     }
